@@ -409,10 +409,79 @@ func c04RaceScenario(kind string) *explore.Scenario {
 	return sc
 }
 
+// overlapping dispatches: background handlers under two names, events arriving back to back (no quiescence in
+// between), so that the background dispatch of one event is still running when the next one begins
+func c04OverlapScenario(nbg, nev int) *explore.Scenario {
+	sc := &explore.Scenario{
+		Family: "handlers-overlap",
+		Name:   fmt.Sprintf("handlers-overlap/bg=%d/events=%d", nbg, nev),
+		Params: map[string]interface{}{"bg": nbg, "events": nev},
+		Opt:    vx.Options{MaxSteps: 40000},
+	}
+	names := []string{"foo", "bar"}
+	sc.Main = func(env *vx.Env) {
+		s, err := StartSession(env, "me", nil, nil)
+		if err != nil {
+			return
+		}
+		for _, n := range names {
+			n := n
+			for i := 0; i < nbg; i++ {
+				id := fmt.Sprintf("bg-%s-%d", n, i)
+				s.C.HandleBG(n, client.HandlerFunc(func(conn *client.Conn, line *client.Line) {
+					vx.Yield()
+					vx.Observe("ev", fmt.Sprintf("run %s %s %s", id, strings.ToLower(line.Cmd), line.Text()))
+				}))
+			}
+			id := "fg-" + n
+			s.C.HandleFunc(n, func(conn *client.Conn, line *client.Line) {
+				vx.Observe("ev", fmt.Sprintf("run %s %s %s", id, strings.ToLower(line.Cmd), line.Text()))
+			})
+		}
+		var lines []string
+		for e := 0; e < nev; e++ {
+			lines = append(lines, fmt.Sprintf(":o!u@h %s :e%d", strings.ToUpper(names[e%2]), e))
+		}
+		s.VC.SendLines(lines...)
+		vx.Quiesce()
+		s.End()
+	}
+	sc.Check = func(o *vx.Outcome) []explore.Finding {
+		if fs := stdOutcome(o); fs != nil {
+			return fs
+		}
+		ev := o.Log("ev")
+		runs := map[string]int{}
+		var fs []explore.Finding
+		for _, r := range ev {
+			f := strings.Fields(r)
+			// run <id> <event-name> <event-no>
+			if !strings.Contains(f[1], "-"+f[2]) {
+				fs = append(fs, explore.Finding{Oracle: "wrong-name", Msg: fmt.Sprintf("handler %s, registered under another name, ran for event %s %s :: %s", f[1], f[2], f[3], strings.Join(ev, "; "))})
+			}
+			runs[f[1]+" "+f[3]]++
+		}
+		for e := 0; e < nev; e++ {
+			n := names[e%2]
+			ids := []string{"fg-" + n}
+			for i := 0; i < nbg; i++ {
+				ids = append(ids, fmt.Sprintf("bg-%s-%d", n, i))
+			}
+			for _, id := range ids {
+				if c := runs[fmt.Sprintf("%s e%d", id, e)]; c != 1 {
+					fs = append(fs, explore.Finding{Oracle: "invocation-count", Msg: fmt.Sprintf("handler %s ran %d times for event e%d, expected 1 :: %s", id, c, e, strings.Join(ev, "; "))})
+				}
+			}
+		}
+		return fs
+	}
+	return sc
+}
+
 func init() {
 	Register(&Prop{
 		ID:   "C04",
-		Rule: "all histories up to depth 5 (quick) / 6 (thorough) that end in an event, over 20 letters = register fg/bg (Handle, HandleFunc, HandleBG) under foo/FOO/Foo/bar, 8 scripted handlers (remove self, remove previous sibling, add to own set, add to other set), Remove of the first/second/last registered handler, events FOO and bar; each history runs on a fresh real session and per-handler invocation counts are compared with the multiset model after every event; plus scripted histories and racing Handle/HandleBG/Remove calls from another goroutine under K<=2 schedule deviations; distinct = distinct histories",
+		Rule: "all histories up to depth 5 (quick) / 6 (thorough) that end in an event, over 20 letters = register fg/bg (Handle, HandleFunc, HandleBG) under foo/FOO/Foo/bar, 8 scripted handlers (remove self, remove previous sibling, add to own set, add to other set), Remove of the first/second/last registered handler, events FOO and bar; each history runs on a fresh real session and per-handler invocation counts are compared with the multiset model after every event; plus scripted histories, racing Handle/HandleBG/Remove calls from another goroutine, and back-to-back events whose background dispatches overlap, under K<=2 schedule deviations; distinct = distinct histories",
 		Assumptions: []string{
 			"sequential histories run under the default scheduler with quiescence between top-level operations; interleavings are the subject of the handlers-concurrent / handlers-race families",
 			"each Remover is used at most once (guarded by the harness); a handler added to the other set during an event may or may not see that event",
@@ -451,6 +520,16 @@ func init() {
 					spec.Shallow = []int{2, 3}
 				}
 				jobs = append(jobs, ExploreJob("C04", spec, 40))
+			}
+			// many background handlers make one dispatch long enough to overlap the next event's under the round-robin default
+			jobs = append(jobs, ExploreJob("C04", ExploreSpec{Sc: c04OverlapScenario(12, 3), Variants: []int{1, 2, 3}, Budgets: []explore.Budget{{0, 0}, {1, 0}}, Cache: true}, 60))
+			jobs = append(jobs, ExploreJob("C04", ExploreSpec{Sc: c04OverlapScenario(24, 4), Variants: []int{3}, Budgets: []explore.Budget{{0, 0}, {1, 0}}, Cache: true}, 60))
+			for _, cfg := range [][2]int{{2, 2}, {2, 3}, {3, 4}} {
+				bs := []explore.Budget{{0, 0}, {1, 0}, {2, 0}}
+				if tier == "thorough" {
+					bs = append(bs, explore.Budget{K: 3})
+				}
+				jobs = append(jobs, ExploreJob("C04", ExploreSpec{Sc: c04OverlapScenario(cfg[0], cfg[1]), Variants: []int{1, 2, 3}, Budgets: bs, Cache: true}, 40))
 			}
 			for _, k := range []string{"add-fg", "add-bg", "remove-fg"} {
 				bs := []explore.Budget{{0, 0}, {1, 0}, {2, 0}}
